@@ -1,6 +1,7 @@
 (* C19/Props.v — property theorems only *)
 From Coq Require Import ZArith List Bool.
-From FV Require Import Base.Ser Base.Res Data.Data_filenames C19.Model C19.Proofs.
+From Coq Require Import QArith.
+From FV Require Import Base.Ser Base.Res Data.Data_filenames C19.Model C19.Proofs C19.ModelAxisMap C19.ProofsAxisMap.
 Import ListNotations.
 Open Scope Z_scope.
 
@@ -43,3 +44,42 @@ Theorem tables_cover_spec :
   glue_ok cfg_ufo = true /\ glue_ok cfg_misc = true /\ maxlen cfg_ufo = 255 /\ maxlen cfg_misc = 255.
 Proof. exact Proofs.tables_cover_spec. Qed.
 Print Assumptions tables_cover_spec.
+
+(* ---- an axis's user -> design mapping and its inverse (ModelAxisMap.v: get_validated_map, map_forward = piecewiseLinearMap,
+   map_backward with its sort and walk), on the map as the user wrote it: entries in ANY order, pairwise different, strictly monotone *)
+Open Scope Q_scope.
+Theorem axis_map_roundtrip_increasing : forall m v, NoDup m -> sinc m ->
+  exists y v', axis_map_forward m v = Ok y /\ axis_map_backward m y = Ok v' /\ v' == v.
+Proof. exact ProofsAxisMap.axis_map_roundtrip_increasing. Qed.
+Print Assumptions axis_map_roundtrip_increasing.
+
+Theorem axis_map_design_roundtrip_increasing : forall m d, NoDup m -> sinc m ->
+  exists u d', axis_map_backward m d = Ok u /\ axis_map_forward m u = Ok d' /\ d' == d.
+Proof. exact ProofsAxisMap.axis_map_design_roundtrip_increasing. Qed.
+Print Assumptions axis_map_design_roundtrip_increasing.
+
+(* a decreasing map (user up, design down) is undone inside the range its nodes span ... *)
+Theorem axis_map_roundtrip_decreasing : forall m v kmin xmin kmax xmax, NoDup m -> sdec m ->
+  In (kmin, xmin) m -> In (kmax, xmax) m -> kmin <= v -> v <= kmax ->
+  exists y v', axis_map_forward m v = Ok y /\ axis_map_backward m y = Ok v' /\ v' == v.
+Proof. exact ProofsAxisMap.axis_map_roundtrip_decreasing. Qed.
+Print Assumptions axis_map_roundtrip_decreasing.
+
+Theorem axis_map_design_roundtrip_decreasing : forall m d k1 dmin k2 dmax, NoDup m -> sdec m ->
+  In (k1, dmin) m -> In (k2, dmax) m -> dmin <= d -> d <= dmax ->
+  exists u d', axis_map_backward m d = Ok u /\ axis_map_forward m u = Ok d' /\ d' == d.
+Proof. exact ProofsAxisMap.axis_map_design_roundtrip_decreasing. Qed.
+Print Assumptions axis_map_design_roundtrip_decreasing.
+
+(* ... and NOT outside it: map_forward extrapolates with slope +1 on both sides, so beyond its nodes a decreasing map is not
+   monotone as a function and has no inverse; the range hypothesis above cannot be dropped *)
+Theorem axis_map_decreasing_outside_range_refuted :
+  let m := [(0, 10#1); (10#1, 0)] in
+  NoDup m /\ sdec m /\ ~ map_backward m (map_forward m (-(5#1))) == -(5#1).
+Proof. exact ProofsAxisMap.decreasing_outside_range_refuted. Qed.
+Print Assumptions axis_map_decreasing_outside_range_refuted.
+
+(* one input coordinate with two different outputs is refused *)
+Theorem axis_map_conflict_refused : forall k x x' r, ~ x == x' -> get_validated_map ((k, x) :: (k, x') :: r) = Err ValueError.
+Proof. exact ProofsAxisMap.validate_conflict. Qed.
+Print Assumptions axis_map_conflict_refused.
